@@ -166,6 +166,17 @@ def programs():
                  LET("g", "Arr", V("h")), SET(IX(F(V("g"), "E"), 2), L(31)),
                  P(IX(F(V("h"), "E"), 2)), P(IX(F(V("g"), "E"), 2)), P(F(V("g"), "N")), P(IX(F(V("g"), "E"), -3))]}))
 
+    # whole-value assignment from a literal that reads its own target: right-hand side first, then the store
+    out.append(("aggregate_assign", {"types": [{"name": "P", "fields": [{"n": "X", "ty": "i32"}, {"n": "Y", "ty": "i32"}]},
+                                               {"name": "W", "fields": [{"n": "In", "ty": "P"}, {"n": "K", "ty": "i64"}]}], "funcs": {},
+        "main": [LET("p", "P", S(X=L(1), Y=L(2))), SET(V("p"), S(X=F(V("p"), "Y"), Y=F(V("p"), "X"))), P(F(V("p"), "X")), P(F(V("p"), "Y")),
+                 SET(V("p"), S(X=L(5), Y=B("+", F(V("p"), "X"), L(100)))), P(F(V("p"), "X")), P(F(V("p"), "Y")),
+                 LET("a", "[3]i32", A(L(1), L(2), L(3))), SET(V("a"), A(IX(V("a"), 2), IX(V("a"), 1), IX(V("a"), 0))),
+                 P(IX(V("a"), 0)), P(IX(V("a"), 1)), P(IX(V("a"), 2)),
+                 LET("w", "W", S(In=S(X=L(7), Y=L(8)), K=L(9, "i64"))),
+                 SET(F(V("w"), "In"), S(X=F(F(V("w"), "In"), "Y"), Y=F(F(V("w"), "In"), "X"))),
+                 P(F(F(V("w"), "In"), "X")), P(F(F(V("w"), "In"), "Y")), P(F(V("w"), "K"))]}))
+
     # break / continue, nested loops, for with a computed range
     out.append(("loops", {"types": [], "funcs": {},
         "main": [LET("i", "i32", L(0)), LET("acc", "i32", L(0)),
